@@ -307,6 +307,8 @@ fn client_op(sh: &Shared, tid: usize, op: &Op, views: &mut BTreeMap<u8, ViewAcc>
             if let Err(e) = k.major_compact() {
                 sh.fail("unexpected-error", format!("{label} failed: {e:?}"));
             }
+            // a tree version change outside the journal lock (see `beyond_inflight`)
+            sched::yield_point("client_major_compacted", 0);
         }
         Op::Persist { mode } => {
             let inv = sh.stamp();
@@ -1335,6 +1337,11 @@ fn commits_of(log: &[(u64, usize, &'static str, u64)]) -> Vec<Commit> {
 /// Instant reads (snapshot registrations) whose instant lies beyond a commit of another thread
 /// that was not fully applied at that moment: (step, thread, instant, commit seqno)
 fn beyond_inflight(log: &[(u64, usize, &'static str, u64)]) -> Vec<(u64, usize, u64, u64)> {
+    // the recorded mechanism: a tree version change that does not hold the journal lock (flush
+    // registration, compaction, the meta keyspace's own ingestion on keyspace create / delete)
+    // completed on another thread while the commit was in flight - lsm-tree then advances the
+    // shared visible-seqno counter. Without such an event the anomaly is something else.
+    const VERSION_CHANGED: &[&str] = &["client_major_compacted", "worker_after_flush", "worker_after_compaction", "meta_create_ingested", "meta_remove_publish", "meta_remove_published", "rotate_sealed", "clear_applied"];
     let commits = commits_of(log);
     let mut out = vec![];
     for (step, tid, site, instant) in log {
@@ -1343,7 +1350,10 @@ fn beyond_inflight(log: &[(u64, usize, &'static str, u64)]) -> Vec<(u64, usize, 
         }
         for c in &commits {
             if c.tid != *tid && c.drawn < *step && *step < c.applied && c.seqno < *instant {
-                out.push((*step, *tid, *instant, c.seqno));
+                let caused = log.iter().any(|(s, t, site, _)| *t != c.tid && c.drawn < *s && *s <= *step && VERSION_CHANGED.contains(site));
+                if caused {
+                    out.push((*step, *tid, *instant, c.seqno));
+                }
             }
         }
     }
